@@ -83,6 +83,7 @@ type Report struct {
 	evaluations   int
 	distinct      map[string]bool
 	samples       []interface{}
+	firstCase     string
 	counters      map[string]int
 	extra         map[string]interface{}
 	Rule          string
@@ -111,6 +112,9 @@ func (r *Report) Nontrivial(content string) {
 	k := hex.EncodeToString(h[:8])
 	r.mu.Lock()
 	r.distinct[k] = true
+	if r.firstCase == "" && len(content) > 40 {
+		r.firstCase = content // kept as a fallback sample: an actual case this run decided
+	}
 	r.mu.Unlock()
 }
 
@@ -245,7 +249,9 @@ func (r *Report) Finish() int {
 	for k, v := range r.extra {
 		cov[k] = v
 	}
-	if r.samples == nil {
+	if len(r.samples) == 0 && r.firstCase != "" {
+		cov["samples"] = []interface{}{map[string]string{"case": Short(r.firstCase, 3000)}}
+	} else if r.samples == nil {
 		cov["samples"] = []interface{}{}
 	}
 	ev := map[string]interface{}{
